@@ -89,6 +89,14 @@ def build(d, rw):
         setc = [-rad <= z, zhi >= z]
     else:
         setc = [z >= -rad, z <= zhi]
+    if not d['norm1']:
+        # a second, looser bound on the same components, stated after the tight one (bounds must be intersected)
+        if 'setb_lin' in rw:
+            setc = setc + [1.0 * z >= -rad - 1.5]
+        elif 'setb_flip' in rw:
+            setc = [z >= -rad - 1.5] + setc
+        else:
+            setc = setc + [z >= -rad - 1.5]
     if 'set_nested' in rw:
         set_args = (setc[:1], tuple(setc[1:]))       # a list and a tuple as separate arguments
     elif 'set_list' in rw:
@@ -146,6 +154,11 @@ def build(d, rw):
         cb = [rso.norm(x, 'inf') <= B]
     else:
         cb = [x <= B, x >= -B]
+    # overlapping bounds on single entries: tighter ones stated BEFORE the array bounds (order is reversed by 'perm')
+    if 'bounds_lin' in rw:
+        cb = [1.0 * x[0] <= B - 1.0, 1.0 * x[2] >= -B + 1.5] + cb
+    else:
+        cb = [x[0] <= B - 1.0, x[2] >= -B + 1.5] + cb
     if y is not None:
         cb += [y <= 6, y >= -6]
     # ---- assemble (order of constraints permuted as well)
